@@ -62,7 +62,7 @@ def opnd_sky(o):
     """(depth, set of deepest pixels) of an operand history, by the Python Spec"""
     S = set()
     for it in o['build']:
-        S, _ = py_spec_step(o['m'], S, it)
+        S, _ = py_spec_step(o['m'], S, resolve(o['m'], it))
     return o['m'], S
 
 
@@ -235,6 +235,9 @@ def inspect(r):
             f = float(v)
             if not f.is_integer():
                 return ('fractional-id', 'level %d holds %r' % (d, v)), None, None
+            if not isinstance(v, (int, np.integer)) or isinstance(v, (bool, np.bool_)):
+                # 3.0 names the right pixel but is not an integer: healpy.boundaries / pix2ang reject it
+                return ('non-integer-id', 'level %d holds %r of type %s' % (d, v, type(v).__name__)), None, None
             p = int(f)
             if not (0 <= p < 12 * 4 ** d):
                 return ('id-out-of-range', 'level %d holds %r (valid: 0..%d)' % (d, v, 12 * 4 ** d - 1)), None, None
@@ -624,11 +627,11 @@ def rand_pixels(rng, d, n, top_only=False):
 
 def rand_operand(rng, m, rel):
     om = max(1, min(12, m + rel))
-    lo = max(1, om - 2)
+    lo = max(1, om - 1)
     build = []
     for _ in range(rng.randint(1, 2)):
         d = rng.randint(lo, om)
-        build.append(['N', d, rand_pixels(rng, d, rng.randint(1, 7))])
+        build.append(['N', d, rand_pixels(rng, d, rng.randint(1, 3 if rel < 0 else 6))])
     if rng.random() < 0.3:
         build.append(['D'])
     if rng.random() < 0.15:
@@ -645,20 +648,20 @@ def rand_history(rng, raw_ok):
     for _ in range(n):
         x = rng.random()
         if x < 0.18:
-            d = rng.randint(lo, m)
-            ps = rand_pixels(rng, d, rng.randint(1, 9))
+            d = rng.randint(lo, m) if rng.random() < 0.15 else rng.randint(max(1, m - 1), m)
+            ps = rand_pixels(rng, d, rng.randint(1, 2) if d < m - 1 else rng.randint(1, 9))
             items.append(['N', d, ps])
             known += [p * 4 ** (m - d) for p in ps]
         elif x < 0.26:
             # a disc of about 1-3 pixel radii at depth d (radians)
             d = rng.randint(max(1, m - 1), m)
             res = math.sqrt(4 * math.pi / (12 * 4 ** d))
-            items.append(['C', rng.uniform(0, 2 * math.pi), math.asin(rng.uniform(-1, 1)), res * rng.uniform(0.3, 2.0), d])
+            items.append(['C', rng.uniform(0, 2 * math.pi), math.asin(rng.uniform(-1, 1)), res * rng.uniform(0.3, 1.2), d])
         elif x < 0.31 and m >= 3:
             d = rng.randint(max(3, m - 1), m)
             res = math.sqrt(4 * math.pi / (12 * 4 ** d))
             ra, dec = rng.uniform(0.5, 5.5), math.asin(rng.uniform(-0.8, 0.8))
-            s = res * rng.uniform(0.8, 2.5)
+            s = res * rng.uniform(0.8, 1.6)
             it = ['Y', [[ra - s, dec - s / 2], [ra + s, dec - s / 2], [ra + s / 3, dec + s]], d]
             try:
                 resolve(m, it)        # healpy refuses some polygons; those are not part of the input space
@@ -669,7 +672,7 @@ def rand_history(rng, raw_ok):
             d = rng.randint(lo, m)
             items.append(['A', d, rand_pixels(rng, d, rng.randint(1, 5))])
         elif x < 0.50:
-            rel = rng.choice([0, 0, -1, 1, 1, 2, -2])
+            rel = rng.choice([0, 0, -1, 1, 1, 2, -1])
             items.append(['U', 1 if (not raw_ok or rng.random() < 0.85) else 0, rand_operand(rng, m, rel)])
         elif x < 0.58:
             items.append(['W', rand_operand(rng, m, rng.choice([0, 0, 0, 0, 1]))])
@@ -707,14 +710,21 @@ def combine_case(ctx, found, rng, tmp, idx):
         fn = os.path.join(tmp, '%s_%d.mim' % (name, idx))
         build_operand(o).save(fn)
         return fn
+    first = None
     for k in range(rng.randint(0, 2)):
-        o = rand_operand(rng, m, rng.choice([0, -1, 1]))
+        o = rand_operand(rng, m, 0 if k == 0 else rng.choice([0, -1, 1]))
         o['build'] = [it for it in o['build'] if it[0] != 'A']
+        if first is None:
+            first = o
         cont.add_region.append([save_opnd(o, 'add%d' % k)])
         items.append(['U', 1, o])
-    for k in range(rng.randint(0, 1)):
+    for k in range(rng.randint(0, 1) if first is None else 1):
         o = rand_operand(rng, m, 0)
         o['build'] = [it for it in o['build'] if it[0] != 'A']
+        if first is not None:
+            # overlap what was added, so that the order add-then-remove matters
+            d0, ps0 = first['build'][0][1], first['build'][0][2]
+            o['build'] = [['N', d0, ps0[:max(1, len(ps0) // 2)]]] + o['build'][:1]
         cont.rem_region.append([save_opnd(o, 'rem%d' % k)])
         items.append(['W', o])
 
@@ -803,8 +813,15 @@ def run(ctx):
         exhaustive(ctx, found, 2, 3, tmp)
         exhaustive(ctx, found, 3, 3, tmp)
     else:
+        # all 2 x 12^4 sequences of length 4; length 5 (248 832 at one depth, ~17 min of driver time) is sampled
         exhaustive(ctx, found, 2, 4, tmp)
-        exhaustive(ctx, found, 3, 5, tmp)
+        exhaustive(ctx, found, 3, 4, tmp)
+        for m in (2, 3):
+            al = alphabet(m)
+            hs = [(m, [al[rng.randrange(len(al))] for _ in range(5)]) for _ in range(12000)]
+            for k in range(0, len(hs), 3000):
+                run_histories(ctx, found, hs[k:k + 3000], tmp)
+            ctx.count('sampled m=%d len=5' % m, len(hs))
     # random histories: normalising alphabet, then with the raw primitives too
     n = 120 if ctx.quick else 1500
     for raw_ok in (False, True):
